@@ -842,6 +842,7 @@ func runC01Server(c *Ctx) {
 	p := c.P
 	pos := func(in ssa.Instruction) string { return p.Pos(in.Pos()) }
 	sites := 0
+	usedPD := false // a site takes its buffer or offset from packetData: then packetData has to be looked at
 	for _, name := range []string{"handlePacket", "fileget", "fileput", "fileputget"} {
 		fn := p.Func(name)
 		if fn == nil {
@@ -868,7 +869,7 @@ func runC01Server(c *Ctx) {
 					offOK = true
 				}
 				if l.Kind == leafCallResult && calleeName(l.Call) == "packetData" && l.Idx == 1 {
-					offOK = true
+					offOK, usedPD = true, true
 				}
 			}
 			t := affineOf(off)
@@ -881,7 +882,7 @@ func runC01Server(c *Ctx) {
 				case m == "ReadAt" && l.Kind == leafCallResult && calleeName(l.Call) == "getDataSlice":
 					bufOK = true
 				case l.Kind == leafCallResult && calleeName(l.Call) == "packetData" && l.Idx == 0:
-					bufOK = true
+					bufOK, usedPD = true, true
 				case m == "WriteAt" && l.Kind == leafFieldLoad && l.Field == "Data" && p.isRequestType(l.Base.Type()):
 					bufOK = true
 				}
@@ -916,7 +917,11 @@ func runC01Server(c *Ctx) {
 	c.check(sites >= 6, "R3", "server read/write sites", "?", fmt.Sprintf("%d sites", sites), fmt.Sprintf("only %d ReadAt/WriteAt sites (6 expected)", sites))
 	// packetData returns the packet's own fields
 	if pd := p.Func("packetData"); pd == nil {
-		c.missing("R3", "packetData")
+		if usedPD {
+			c.missing("R3", "packetData")
+		} else {
+			c.okT("R3", "packetData result", "?", "no read or write site goes through packetData: buffer and offset are taken from the packet at the site")
+		}
 	} else {
 		eachInstr(pd, func(in ssa.Instruction) {
 			r, ok := in.(*ssa.Return)
